@@ -116,6 +116,9 @@ func (m *Machine) load(fr *frame, addr Value) Value {
 		if p == nil {
 			m.rtPanic(fr, "nil-dereference")
 		}
+		if le, ok := (*p).(LazyEmbed); ok {
+			m.forceEmbed(p, le) // not journaled: the file content is the variable's initial value
+		}
 		return copyVal(*p)
 	case SymPtr:
 		return m.symLoad(fr, p)
@@ -552,55 +555,90 @@ func (m *Machine) strIndex(fr *frame, s Str, idx T, it types.Type) Value {
 
 func (m *Machine) slice(fr *frame, in *ssa.Slice) Value {
 	x := fr.get(in.X)
-	geti := func(v ssa.Value, def int) int {
-		if v == nil {
-			return def
-		}
-		return m.concreteInt(fr, fr.get(v), "slice-bound")
-	}
+	var n, c int
 	switch a := x.(type) {
 	case Str:
-		n := a.Len()
-		lo := geti(in.Low, 0)
-		hi := geti(in.High, n)
-		if lo < 0 || hi < lo || hi > n {
-			m.rtPanic(fr, "slice-bounds-out-of-range")
-		}
-		if a.B != nil {
-			return m.mkStr(a.B[lo:hi:hi])
-		}
-		return Str{S: a.S[lo:hi]}
+		n, c = a.Len(), a.Len()
 	case Slice:
-		n, c := len(a.V), cap(a.V)
-		lo := geti(in.Low, 0)
-		hi := geti(in.High, n)
-		mx := geti(in.Max, c)
-		if lo < 0 || hi < lo || mx < hi || mx > c {
-			m.rtPanic(fr, "slice-bounds-out-of-range")
-		}
-		if a.V == nil {
-			return Slice{}
-		}
-		return Slice{V: a.V[lo:hi:mx]}
+		n, c = len(a.V), cap(a.V)
 	case Ptr:
 		if a == nil {
 			m.rtPanic(fr, "nil-dereference")
 		}
-		arr := (*a).(Array)
-		n := len(arr)
-		lo := geti(in.Low, 0)
-		hi := geti(in.High, n)
-		mx := geti(in.Max, n)
-		if lo < 0 || hi < lo || mx < hi || mx > n {
-			m.rtPanic(fr, "slice-bounds-out-of-range")
+		arr, ok := (*a).(Array)
+		if !ok {
+			if ps, isP := (*a).(Poison); isP {
+				m.unsupported("slice of poison: %s", ps.Why)
+			}
+			panic(fmt.Sprintf("slice of pointer to %T", *a))
 		}
-		return Slice{V: []Value(arr)[lo:hi:mx]}
+		n, c = len(arr), len(arr)
 	case Poison:
 		m.unsupported("slice of poison: %s", a.Why)
+	default:
+		panic(fmt.Sprintf("slice of %T", x))
 	}
-	panic(fmt.Sprintf("slice of %T", x))
+	// Bounds as terms: 0 <= lo <= hi <= max <= cap (hi defaults to len, max to cap).
+	// The validity condition is decided symbolically FIRST — huge or negative
+	// symbolic bounds (integer overflow in length arithmetic) end in the Go
+	// run-time panic branch — and only then are the in-range values enumerated.
+	F := m.F
+	term := func(v ssa.Value, def int) T {
+		if v == nil {
+			return F.Const(64, uint64(def))
+		}
+		t, ok := fr.get(v).(T)
+		if !ok {
+			m.unsupported("slice bound %s", describe(fr.get(v)))
+		}
+		if t.W < 64 {
+			if isSigned(v.Type()) {
+				t = F.Sext(t, 64)
+			} else {
+				t = F.Zext(t, 64)
+			}
+		}
+		return t
+	}
+	lo, hi, mx := term(in.Low, 0), term(in.High, n), term(in.Max, c)
+	valid := F.And(F.And(F.Sle(F.Const(64, 0), lo), F.Sle(lo, hi)), F.And(F.Sle(hi, mx), F.Sle(mx, F.Const(64, uint64(c)))))
+	if !m.Decide(valid) {
+		m.rtPanic(fr, "slice-bounds-out-of-range")
+	}
+	conc := func(t T, upto int, what string) int {
+		if t.IsConst() {
+			return int(t.SignedVal())
+		}
+		if upto > 4096 {
+			m.unsupported("%s: symbolic slice bound over %d positions in %s", what, upto, fr.fn)
+		}
+		for i := 0; i < upto; i++ {
+			if m.Decide(F.Eq(t, F.Const(64, uint64(i)))) {
+				return i
+			}
+		}
+		return upto
+	}
+	l := conc(lo, c, "low")
+	h := conc(hi, c, "high")
+	mxv := conc(mx, c, "max")
+	switch a := x.(type) {
+	case Str:
+		if a.B != nil {
+			return m.mkStr(a.B[l:h:h])
+		}
+		return Str{S: a.S[l:h]}
+	case Slice:
+		if a.V == nil {
+			return Slice{}
+		}
+		return Slice{V: a.V[l:h:mxv]}
+	case Ptr:
+		arr := (*a).(Array)
+		return Slice{V: []Value(arr)[l:h:mxv]}
+	}
+	panic("unreachable")
 }
-
 
 // cltLoad reads elem(idx) when idx is an ite tree with constant leaves (the
 // result of an earlier table lookup): the lookup is pushed into the leaves, so
